@@ -38,6 +38,8 @@ import Bermuda.Lemmas.AllOpsEval
 import Bermuda.Model.AllOps2
 import Bermuda.Lemmas.AllOps2
 import Bermuda.Lemmas.AllOps3
+import Bermuda.Model.AllOps3
+import Bermuda.Lemmas.AllOps4
 namespace Bermuda.Properties.C01Ext
 open Bermuda Bermuda.Properties.C01 Bermuda.AllOps
 
@@ -366,6 +368,98 @@ example : Canonical exT6 ∧ exT6.length = 4 ∧
     (exT6.getLast?.map fun c => c.values.keys) = some ["paid_loss", "earned_premium", "incurred_loss"] :=
   ⟨run2_canonical exChain exT_canonical exChain_args exChain_runs, by decide +kernel, by decide +kernel,
    by decide +kernel⟩
+
+/-! ### third extension (`Op4`, Model/AllOps3.lean): the rest of `io/array.py`, rich matrix, `__getitem__` with
+any index object on `Triangle` / `TriangleSlice`, `make_pred_triangle(_complement)` -/
+
+/-- `statics_data_frame_to_triangle` returns a canonical triangle for EVERY frame it accepts -/
+theorem fromStatics_canonical {rows : List Frame.StaticsRow} {ev : Option Date} {res : Option Int} {md : Metadata}
+    {r : List Cell} (h : Frame.fromStatics rows ev res md = .ok r) : Canonical r :=
+  AllOps.fromStatics_canonical h
+
+/-- `array_data_frame_to_triangle` with all its arguments, for every frame it accepts -/
+theorem fromArrayFrameFull_canonical {fr : Frame.ArrayFrame} {field : String} {res evalRes : Option Int}
+    {fromEnd : Bool} {md : Metadata} {r : List Cell}
+    (h : Frame.fromArrayFrameFull fr field res evalRes fromEnd md = .ok r) : Canonical r :=
+  AllOps.fromArrayFrameFull_canonical h
+
+/-- `array_triangle_builder`, for every list of frames it accepts -/
+theorem arrayTriangleBuilder_canonical {frames : List Frame.ArrayFrame} {fields : List String}
+    {res evalRes : Option Int} {fromEnd : Bool} {md : Metadata} {r : List Cell}
+    (h : Frame.arrayTriangleBuilder frames fields res evalRes fromEnd md = .ok r) : Canonical r :=
+  AllOps.arrayTriangleBuilder_canonical h
+
+/-- `rich_matrix_to_triangle`, for every rich matrix it accepts -/
+theorem fromRich_canonical {m : Frame.RichMatrix} {r : List Cell} (h : Frame.fromRich m = .ok r) : Canonical r :=
+  AllOps.fromRich_canonical h
+
+/-- `Triangle.from_binary`: canonical for EVERY byte string `_read_triangle` accepts (every decoded cell went
+through the constructor's checks, `Bin.decode_spec`; the bridge to the shared cell type keeps class and dates) -/
+theorem fromBinary_canonical {s : Codec.Bytes} {r : List Cell} (h : Fn.fromBinary s = .ok r) : Canonical r :=
+  AllOps.fromBinary_canonical h
+
+/-- `make_pred_triangle`: canonical whatever the arguments and whatever `statics_fn` returns or raises -/
+theorem makePredTriangle_canonical {a : Fn.PredArgs} {statics : Fn.StaticsFn} {r : List Cell}
+    (h : Fn.makePredTriangle a statics = .ok r) : Canonical r :=
+  AllOps.makePredTriangle_canonical h
+
+/-- `t[index]` for ANY index object: a canonical triangle, or a cell that satisfies the date rules -/
+theorem getItemAny_itemOk {t : List Cell} {idx : Index} {res : List Cell ⊕ Cell} (ht : Canonical t)
+    (h : Triangle.getItemAny t idx = .ok res) : ItemOk res :=
+  getItemAny_ok ht h
+
+/-- `TriangleSlice(cells)` is canonical; so is whatever `TriangleSlice(cells)[index]` returns -/
+theorem triangleSlice_canonical {l r : List Cell} (hl : ∀ c ∈ l, c.datesOk = true)
+    (h : TriangleSlice.ofCells l = .ok r) : Canonical r :=
+  sliceOfCells_canonical hl h
+
+theorem sliceGetItemAny_itemOk {t : List Cell} {idx : Index} {res : List Cell ⊕ Cell} (ht : Canonical t)
+    (h : Fn.sliceGetItemAny t idx = .ok res) : ItemOk res :=
+  sliceGetItemAny_ok (allOk_of ht) h
+
+def _root_.Bermuda.Op4.argsCanonical : Op4 → Prop
+  | .base op => op.argsCanonical
+  | _ => True
+
+/-- **Every operation of `Op4` returns a canonical triangle.** -/
+theorem step4_canonical {t t' : List Cell} (op : Op4) (ht : Canonical t) (ho : op.argsCanonical)
+    (h : step4 t op = .ok t') : Canonical t' := by
+  cases op with
+  | base op => exact step3_canonical op ht ho h
+  | rightEdgeStatics ev res md => exact rightEdgeStatics_canonical h
+  | arrayFullRoundTrip field res evalRes fromEnd md => exact arrayFullRoundTrip_canonical h
+  | arrayBuilderRoundTrip fields res evalRes fromEnd md => exact arrayBuilderRoundTrip_canonical h
+  | richRoundTrip evalRes fields => exact richRoundTrip_canonical h
+  | matrixOptRoundTrip evalRes fields => exact matrixOptRoundTrip_canonical h
+  | getItemAny idx => exact triangleOnly_canonical (fun _ hx => getItemAny_ok ht hx) h
+  | sliceGetItemAny idx => exact triangleOnly_canonical (fun _ hx => sliceGetItemAny_ok (allOk_of ht) hx) h
+  | makePredTriangle a statics => exact AllOps.makePredTriangle_canonical h
+  | makePredTriangleComplement a => exact makePredTriangleComplement_canonical h
+  | binaryRoundTrip ext wflag rflag => exact binaryRoundTrip_canonical h
+
+/-- **Every chain over `Op4` keeps the canonical form** (induction over the list). -/
+theorem run4_canonical {t t' : List Cell} (ops : List Op4) (ht : Canonical t)
+    (ho : ∀ op ∈ ops, op.argsCanonical) (h : run4 t ops = .ok t') : Canonical t' := by
+  induction ops generalizing t with
+  | nil => simp [run4] at h; subst h; exact ht
+  | cons op ops ih =>
+    simp only [run4] at h
+    split at h
+    · rename_i t₁ h₁
+      exact ih (step4_canonical op ht (ho op (by simp)) h₁) (fun o ho' => ho o (by simp [ho'])) h
+    · cases h
+
+theorem run4_isCanonical {t t' : List Cell} (ops : List Op4) (ht : Canonical t)
+    (ho : ∀ op ∈ ops, op.argsCanonical) (h : run4 t ops = .ok t') : Spec.isCanonical t' = true :=
+  isCanonical_of_canonical (run4_canonical ops ht ho h)
+
+/-- a chain over `Op3` is a chain over `Op4` -/
+theorem run4_base (t : List Cell) (ops : List Op3) : run4 t (ops.map Op4.base) = run3 t ops := by
+  induction ops generalizing t with
+  | nil => rfl
+  | cons op ops ih =>
+    simp only [List.map_cons, run4, run3, step4]
+    split <;> simp_all
 
 /-! ### non-vacuity of `run3_canonical`: a chain of five `Op3` operations with function arguments
 
